@@ -386,18 +386,6 @@ func Yield() {
 	t.park(sRunnable)
 }
 
-var freeCtr atomic.Uint64
-
-func perturbFree() {
-	x := splitmix(freeCtr.Add(1))
-	switch x & 15 {
-	case 0, 1:
-		runtime.Gosched()
-	case 2:
-		time.Sleep(time.Nanosecond)
-	}
-}
-
 // ---------------------------------------------------------------- controller
 
 // Fail records a violation (first one wins for the class key) and stops the run.
@@ -1054,9 +1042,10 @@ type Event struct {
 	w       *World
 	set     bool
 	waiters []*Task
+	ch      chan struct{} // closed on Set (engines F and R wait on it)
 }
 
-func (w *World) NewEvent() *Event { return &Event{w: w} }
+func (w *World) NewEvent() *Event { return &Event{w: w, ch: make(chan struct{})} }
 
 func (e *Event) IsSet() bool {
 	e.w.mu.Lock()
@@ -1068,7 +1057,10 @@ func (e *Event) Set() {
 	w := e.w
 	if CurMode() != BatonMode {
 		w.mu.Lock()
-		e.set = true
+		if !e.set {
+			e.set = true
+			close(e.ch)
+		}
 		w.mu.Unlock()
 		return
 	}
@@ -1087,28 +1079,18 @@ func (e *Event) Set() {
 // timeout). Returns whether the event is set.
 func (e *Event) Wait(d time.Duration) bool {
 	w := e.w
-	if CurMode() == Off {
-		deadline := time.Now().Add(d)
-		for {
-			if e.IsSet() {
-				return true
-			}
-			if d > 0 && !time.Now().Before(deadline) {
-				return false
-			}
-			time.Sleep(200 * time.Microsecond)
+	if CurMode() != BatonMode {
+		if d <= 0 {
+			<-e.ch
+			return true
 		}
-	}
-	if CurMode() == FreeMode {
-		deadline := time.Now().Add(d)
-		for {
-			if e.IsSet() {
-				return true
-			}
-			if d > 0 && !time.Now().Before(deadline) {
-				return false
-			}
-			time.Sleep(time.Microsecond)
+		tm := time.NewTimer(d)
+		defer tm.Stop()
+		select {
+		case <-e.ch:
+			return true
+		case <-tm.C:
+			return e.IsSet()
 		}
 	}
 	t := Cur()
@@ -1188,6 +1170,12 @@ func SetRealWorld(w *World) {
 }
 
 func ClearWorld(w *World) {
+	w.mu.Lock()
+	if !w.ended {
+		w.endNS = int64(time.Since(w.start))
+		w.ended = true
+	}
+	w.mu.Unlock()
 	w.dead.Store(true)
 	curWorld.CompareAndSwap(w, nil)
 }
